@@ -3,6 +3,7 @@ package mon
 
 import (
 	"fmt"
+	"math/rand/v2"
 	"path"
 	"regexp"
 	"sort"
@@ -181,6 +182,8 @@ type IgnoreRules struct {
 	Exts  []string // "*.ext" lines, the ".ext" part
 	Exact []string // other lines (exact path from the root)
 	Present bool
+	// Unsettled: the file has lines outside the forms the statement speaks about (blank lines)
+	Unsettled bool
 }
 
 func ParseIgnore(wt map[string][]byte) IgnoreRules {
@@ -190,9 +193,16 @@ func ParseIgnore(wt map[string][]byte) IgnoreRules {
 		return ir
 	}
 	ir.Present = true
+	if strings.HasPrefix(string(b), "\n") || strings.Contains(string(b), "\n\n") {
+		ir.Unsettled = true // blank lines are not among the forms the statement covers
+	}
 	for _, ln := range strings.Split(string(b), "\n") {
 		ln = strings.TrimSuffix(ln, "\r")
 		if ln == "" {
+			continue
+		}
+		if strings.TrimSpace(ln) == "" {
+			ir.Unsettled = true
 			continue
 		}
 		switch {
@@ -209,6 +219,9 @@ func ParseIgnore(wt map[string][]byte) IgnoreRules {
 
 // Ignored classifies a file path: "yes", "no" or "dontcare" (the statement does not settle it).
 func (ir IgnoreRules) Ignored(p string) string {
+	if ir.Unsettled {
+		return "dontcare"
+	}
 	res := "no"
 	base := path.Base(p)
 	for _, d := range ir.Dirs {
@@ -497,4 +510,8 @@ func firstN(xs []string, n int) []string {
 		return append(append([]string{}, xs[:n]...), fmt.Sprintf("… %d more", len(xs)-n))
 	}
 	return xs
+}
+
+func newRand(seed int64, stream uint64) *rand.Rand {
+	return rand.New(rand.NewPCG(uint64(seed), stream*0x9e3779b97f4a7c15+1))
 }
